@@ -485,7 +485,7 @@ func fieldNameOfValue(v ssa.Value) string {
 	v = ssax.Strip(v)
 	if f, ok := v.(*ssa.Field); ok {
 		st := f.X.Type().Underlying().(*types.Struct)
-		return st.Field(f.Field).Name()
+		return structFieldName(st, f.Field)
 	}
 	if u, ok := v.(*ssa.UnOp); ok && u.Op == token.MUL {
 		return fieldNameOfAddr(u.X)
